@@ -94,76 +94,70 @@ def r3_boundary(ctx, F, cb):
                   good='the enqueued state is the successor that was tested',
                   bad='%s: enqueued state is %r, not the successor %r' %
                       (cb.strat, v.key[3][0] if v.kind == 'agg' and v.key[3] else v, sv), span=e.span)
-    # spawn: init_states -> filter(within_boundary) -> collect; consumers derive from it
+    spawn_seeding(ctx, F, cb, rule)
+
+
+def spawn_seeding(ctx, F, cb, rule):
+    """spawn(): everything the search is seeded with derives from init_states() elements that passed
+    within_boundary, and the unfiltered vector reaches none of the seeds (dataflow, A13; closures of
+    iterator chains are expanded first, A12, so a `for` loop and a `filter`/`map` chain read alike)."""
+    import roles
+    from taint import Taint, origin_calls
     sp = Spawn(F, cb.strat)
-    s = sp.b
-    ctx.touched(s)
+    ctx.touched(sp.b)
+    s = F.norm(sp.b)
     init = s.one_call('Model::init_states', what='init_states in spawn')
-    filt = [c for c in s.calls_to('Iterator::filter')
-            if noref(s.trace(s.val(c.args[0]), ('IntoIterator::into_iter',))) == V('call', init.bb)]
-    okf = False
-    if len(filt) == 1:
-        cv = s.val(filt[0].args[1])
-        if cv.kind == 'agg' and cv.key[0] == 'closure':
-            cl = F.bodies.get(cv.key[1])
-            if cl is not None:
-                wbs = cl.calls_to('Model::within_boundary')
-                if len(wbs) == 1 and wbs[0].dest['l'] == 0 and not wbs[0].dest['p']:
-                    # the closure's argument is what is tested
-                    okf = noref(cl.val(wbs[0].args[1])).kind == 'arg'
-    ctx.check(okf, rule, 'init-filter', s,
-              good='init_states() flows into filter(|s| model.within_boundary(s))',
+    wbs = [c for c in s.calls_to('Model::within_boundary') if s.branch(c, True)]
+    RAW, CLEAN = 'unfiltered', 'filtered'
+
+    def san(l, bb, labels):
+        if RAW in labels:
+            lv = noref(s.local_val(l))
+            for c in wbs:
+                if noref(s.val(c.args[1])) == lv and s.edges_dominate(s.branch(c, True), bb):
+                    return (labels - {RAW}) | {CLEAN}
+        return labels
+    T = Taint(s, {init.dest['l']: {RAW}}, san)
+    okf = any(RAW in T.of_operand(c.args[1], c.bb) for c in wbs)
+    ctx.check(okf, rule, 'init-filter', sp.b,
+              good='the elements of init_states() are tested with within_boundary',
               bad='%s spawn: initial states are not filtered by within_boundary' % cb.strat)
-    # init_states result has exactly one consumer (the into_iter feeding the filter)
-    dl = init.dest['l']
-    uses = [(bb, p, ctxx) for (bb, p, ctxx) in iter_places(s) if p['l'] == dl and ctxx == 'read']
-    ctx.check(len(uses) == 1, rule, 'init-single-consumer', s,
-              good='the unfiltered init_states() vector has a single consumer',
-              bad='%s spawn: the unfiltered init_states() vector is used %d times: some consumer '
-                  'bypasses the boundary filter' % (cb.strat, len(uses)))
-    if filt:
-        coll = [c for c in s.calls_to('Iterator::collect')
-                if noref(s.val(c.args[0])) == V('call', filt[0].bb)]
-        if len(coll) == 1:
-            cvec = V('call', coll[0].bb)
-            # generated seeds: fingerprint(arg) where arg comes from iterating &cvec
-            seeds = [c for c in s.calls_to('DashMap::insert', 'DashSet::insert')
-                     if c.targs and 'NonZero<u64>' in c.targs[0]]
-            ok_seed = bool(seeds)
-            for c in seeds:
-                k = s.val(c.args[1])
-                src = s.call_at(k.key) if k.kind == 'call' else None
-                good = False
-                if src is not None and src.is_('fingerprint'):
-                    a = s.val(src.args[0])
-                    # either the element itself or representative(element)
-                    if a.kind == 'call' and s.call_at(a.key) is not None and s.call_at(a.key).indirect:
-                        a = s.val(s.call_at(a.key).args[0])
-                    it = noref(s.trace(a, ()))
-                    if it.kind == 'call':
-                        nx = s.call_at(it.key)
-                        if nx is not None and nx.is_('Iterator::next'):
-                            base = iter_source(s, nx)
-                            good = base == cvec
-                ok_seed = ok_seed and good
-            ctx.check(ok_seed, rule, 'seed-generated-from-filtered', s,
-                      good='initial visited entries are the fingerprints of the filtered initial states',
-                      bad='%s spawn: initial `generated` entries do not derive from the filtered '
-                          'initial states' % cb.strat)
-            # initial jobs: JobBroker::push(collect(map(into_iter(cvec))))
-            import roles
-            pushes = roles.calls_role(F, s, 'push')
-            okp = False
-            for pcall in pushes:
-                v = s.trace_chain(s.val(pcall.args[1]),
-                                  ['Iterator::collect', 'Iterator::map', 'IntoIterator::into_iter'])
-                if v is not None and noref(v) == cvec:
-                    okp = True
-            ctx.check(okp, rule, 'initial-jobs-from-filtered', s,
-                      good='initial jobs are built from the filtered initial states',
-                      bad='%s spawn: initial jobs do not derive from the filtered initial states' % cb.strat)
-        else:
-            ctx.bad(rule, 'init-collect', s, '%s spawn: filtered initial states are not collected once' % cb.strat)
+    seeds = [c for c in s.calls_to('DashMap::insert', 'DashSet::insert')
+             if c.targs and 'NonZero<u64>' in c.targs[0]]
+    ok_seed = bool(seeds)
+    why = ''
+    for c in seeds:
+        labels = T.of_operand(c.args[1], c.bb)
+        org = origin_calls(s, c.args[1])
+        if labels != {CLEAN}:
+            ok_seed = False
+            why = 'key derives from %s' % sorted(labels)
+        elif not org or not all(o != 'other' and o.is_('fingerprint') for o in org):
+            ok_seed = False
+            why = 'key is not a fingerprint'
+    ctx.check(ok_seed, rule, 'seed-generated-from-filtered', sp.b,
+              good='initial visited entries are the fingerprints of the filtered initial states',
+              bad='%s spawn: initial `generated` entries do not derive from the filtered '
+                  'initial states (%s)' % (cb.strat, why or 'no seeding insert found'))
+    pushes = roles.calls_role(F, s, 'push')
+    okp = bool(pushes) and all(T.of_operand(pc.args[1], pc.bb) == {CLEAN} for pc in pushes)
+    ctx.check(okp, rule, 'initial-jobs-from-filtered', sp.b,
+              good='initial jobs are built from the filtered initial states',
+              bad='%s spawn: initial jobs do not derive from the filtered initial states' % cb.strat)
+    # the unfiltered vector escapes nowhere: not into a thread, a counter, the queue or the visited set
+    leaks = []
+    for (i, si, st) in s.assigns(lambda st: st['rv']['k'] == 'agg' and st['rv'].get('agg') == 'closure'):
+        cl = F.bodies.get(st['rv']['closure'])
+        if cl is not None and any(cl is x[0] for x in sp.thread_closures):
+            if any(RAW in T.of_operand(o, i) for o in st['rv']['ops']):
+                leaks.append('thread closure %s' % st['span'])
+    for c in s.calls_to('AtomicUsize::new', 'Atomic::new') + seeds + pushes:
+        if any(RAW in T.of_operand(a, c.bb) for a in c.args):
+            leaks.append('%s@%s' % (c.short.split('::')[-1], c.span))
+    ctx.check(not leaks, rule, 'init-single-consumer', sp.b,
+              good='the unfiltered init_states() vector reaches no seed, counter or worker',
+              bad='%s spawn: the unfiltered init_states() vector reaches %s: some consumer '
+                  'bypasses the boundary filter' % (cb.strat, leaks))
 
 
 def iter_source(s, nx):
@@ -187,20 +181,16 @@ def depth_skip_edges(cb):
     b = cb.b
     if cb.p_target_depth is None:
         return None
-    out = []
-    for c in b.calls_to('PartialOrd::ge', 'PartialOrd::gt', 'PartialOrd::le', 'PartialOrd::lt'):
-        vs = [noref(b.val(a)) for a in c.args[:2]]
+    from common import edges_where
 
-        def from_target(v):
-            return v.kind == 'arg' and v.key == cb.p_target_depth
+    def from_target(v):
+        v = noref(v)
+        return v.kind == 'arg' and v.key == cb.p_target_depth
 
-        def from_depth(v):
-            return cb.job_field(v) == 3
-        if from_depth(vs[0]) and from_target(vs[1]) and c.is_('PartialOrd::ge'):
-            out += b.branch(c, True)
-        elif from_target(vs[0]) and from_depth(vs[1]) and c.is_('PartialOrd::le'):
-            out += b.branch(c, True)
-    return out
+    def from_depth(v):
+        return cb.job_field(noref(v)) == 3
+    # `depth >= target`, however it is spelled (target <= depth, !(depth < target), ...)
+    return edges_where(b, from_depth, from_target, 'ge')
 
 
 def awaiting_flag_exit(cb):
